@@ -7,7 +7,7 @@ import XrsVerif.Gen.IL
   Model/Trim.lean, for every raster size (0 included), every list, every number type `[Fl F]`.
 -/
 namespace XrsVerif.IL.TrimScan
-open XrsVerif XrsVerif.IL
+open XrsVerif XrsVerif.IL XrsVerif.IL.Tr
 variable {F : Type} [Fl F]
 set_option linter.unusedSectionVars false
 set_option linter.unusedVariables false
@@ -510,7 +510,7 @@ theorem crop_body_eq : Gen.IL.crop.body = cropBody := by decide
 end XrsVerif.IL.TrimScan
 
 namespace XrsVerif.IL
-open XrsVerif XrsVerif.IL.TrimScan
+open XrsVerif XrsVerif.IL.TrimScan XrsVerif.IL.Tr
 variable {F : Type} [Fl F]
 
 /-- `rows, cols = data.shape` -/
